@@ -167,6 +167,65 @@ def run(ctx, res):
         src = mutate(rng, gen_lua.gen_program(rng, style='spaced')[0])
         check_program(res, src, None, batch, 'malformed')
         res.count('malformed')
+    # histories: a Lua object fed in several steps (update_from_lines more than once re-parses the grown token list with the same
+    # parser object), and one parser object used for two different programs: the tree is that of the tokens it is given now
+    from pico8.lua import lua as lua_mod, parser as parser_mod, lexer as lexer_mod
+    for h in range(ctx.budget(40, 600)):
+        a_src = gen_lua.gen_program(rng, style=rng.choice(['lines', 'spaced']))[0]
+        b_src = gen_lua.gen_program(rng, style=rng.choice(['lines', 'spaced']))[0]
+        if not a_src.endswith(b'\n'):
+            a_src += b'\n'
+        if h % 2:
+            # one program cut at a token boundary anywhere (also in the middle of a short-if line); and, for the reused parser, the same
+            # program with one blank replaced by a line break (same token positions, different line ends)
+            src0 = gen_lua.gen_program(rng, style='spaced')[0]
+            if h % 4 == 1:
+                # programs rich in short-ifs with several statements on their line
+                tpl = [b'if (x%d) a%d=1 b%d=2 c%d=3\n', b'y%d=%d z%d=%d\n', b'if (f(x%d)) g%d() h%d() i%d=0\n', b'while q%d do if (z%d) r%d=1 t%d=2\n end\n',
+                       b'if (u%d) v%d=1 else w%d=2 k%d=3\n', b'?x%d,%d if (m%d) n%d=1\n']
+                src0 = b''.join(rng.choice(tpl) % ((n_,) * 4) for n_ in range(rng.randrange(1, 5)))
+            codes = [t.code for t in (L.impl_lex([src0])[1] or [])]
+            if len(codes) > 3:
+                k = rng.randrange(1, len(codes))
+                a_src, b_src = b''.join(codes[:k]), b''.join(codes[k:])
+        res.evaluations += 1
+        res.count('parse-histories')
+        whole, _, _ = impl_parse(a_src + b_src)
+        l = lua_mod.Lua(version=8)
+        try:
+            l.update_from_lines([a_src])
+        except Exception:
+            whole = 'skip'        # the first piece alone is not a program the parser accepts: no second step to speak of
+        try:
+            l.update_from_lines([b_src])
+            inc = 'ok ' + ser(l.root)
+        except Exception as e:
+            inc = 'err ' + U.exc_kind(e)
+        key = 'C08:history:%d:%s' % (h, hx(a_src)[:40])
+        if whole.startswith('ok') and inc != whole:
+            res.fail(key, 'feeding a program in two steps (update_from_lines twice) gives a different tree than parsing it at once',
+                     {'first': hx(a_src), 'second': hx(b_src)}, observed=inc[:300], expected=whole[:300])
+            continue
+        if h % 2:
+            src0 = a_src + b_src
+            toks0 = L.impl_lex([src0])[1] or []
+            spaces = [i for i, t in enumerate(toks0) if type(t).__name__ == 'TokSpace']
+            if spaces:
+                i = rng.choice(spaces)
+                a_src, b_src = src0, b''.join(b'\n' if j == i else t.code for j, t in enumerate(toks0))
+        try:
+            p = parser_mod.Parser(version=8)
+            for src_ in (a_src, b_src):
+                lx = lexer_mod.Lexer(version=8)
+                lx.process_lines([src_])
+                p.process_tokens(lx.tokens)
+            reused = 'ok ' + ser(p.root)
+        except Exception as e:
+            reused = 'err ' + U.exc_kind(e)
+        fresh = impl_parse(b_src)[0]
+        if fresh.startswith('ok') and reused != fresh:
+            res.fail(key, 'a parser object that parsed another program before gives a different tree for this one',
+                     {'first': hx(a_src), 'second': hx(b_src)}, observed=reused[:300], expected=fresh[:300])
     if ctx.model.available:
         mo = ctx.model.run([b[0] for b in batch])
         for (line, exp, case), got in zip(batch, mo):
